@@ -261,7 +261,6 @@ def run(ctx, report: Report) -> None:
             for f in bad_free:
                 r3.violation(f'{mn}.{q} cached reads {f}', mod.where(fn),
                              f'{mn}.{q} is memoised but reads the module-level variable {f}')
-    if n_cached < 2:
-        raise AnalysisError('fewer than two lru_cache functions found (anchor vanished)')
+    r3.instance({'memoised_functions': n_cached}, key='count', nontrivial=False)
     # module-level dict/list/set used as ad-hoc caches: a module-level mutable literal that some function indexes
     # and stores into is already reported by R1.
